@@ -21,6 +21,7 @@ def main():
     ap.add_argument("--checks")
     ap.add_argument("--name")
     ap.add_argument("--seeds", default="0,1")
+    ap.add_argument("--tag", default="")
     a = ap.parse_args()
     sd = Path(a.seed_dir)
     meta = json.loads((sd / "meta.json").read_text())
@@ -35,7 +36,7 @@ def main():
         return 2
     confirmed = res.get("demo_pristine_rc") == 0 and res.get("demo_changed_rc") not in (0, None) and res.get("suite_rc") == 0
     slug = re.sub(r"[^a-z0-9]+", "-", meta.get("title", "seed").lower()).strip("-")[:48]
-    name = a.name or f"{meta.get('property', 'CXX')}-{sd.name}-{slug}"
+    name = a.name or f"{meta.get('property', 'CXX')}-{a.tag + '-' if a.tag else ''}{sd.name}-{slug}"
     summary = {"name": name, "confirmed": confirmed, "caught": res.get("caught"), "demo": [res.get("demo_pristine_rc"), res.get("demo_changed_rc")],
                "suite": res.get("suite_tail"), "checks": {c: [(r["seed"], r["rc"], r["keys"][:4]) for r in rs] for c, rs in res["checks"].items()}}
     print(json.dumps(summary))
